@@ -22,6 +22,8 @@ pub enum Op {
     OpenHold { node: u8, probe: u8 },
     /// both ends drop what probe `probe` holds
     Drop { probe: u8 },
+    /// node `node` closes the write half of what its probe `probe` holds; the substreams stay alive on both ends
+    HalfClose { node: u8, probe: u8 },
     /// node 0 sends a request that node 1 answers (request-response is a keep-alive protocol)
     Request { node: u8 },
     /// wait `pct` percent of the keep-alive timeout
@@ -32,6 +34,8 @@ pub enum Op {
     OpenAtExpiry { delta_us: i32, node: u8, probe: u8 },
     /// open, hold for `pct` percent of the timeout, release (= OpenHold, Wait, Drop)
     HoldFor { pct: u16, node: u8, probe: u8 },
+    /// open, close the opener's write half, keep the half-closed substream for `pct` percent of the timeout, release
+    HalfClosedFor { pct: u16, node: u8, probe: u8 },
 }
 
 #[derive(Debug, Clone, Serialize, Deserialize)]
@@ -46,11 +50,13 @@ pub fn strategy() -> impl Strategy<Value = Case> {
         2 => Just(Op::Connect),
         5 => (0u8..2, 0u8..2).prop_map(|(node, probe)| Op::OpenHold { node, probe }),
         4 => (0u8..2).prop_map(|probe| Op::Drop { probe }),
+        2 => (0u8..2, 0u8..2).prop_map(|(node, probe)| Op::HalfClose { node, probe }),
         2 => (0u8..2).prop_map(|node| Op::Request { node }),
         6 => prop_oneof![Just(20u16), Just(60), Just(90), Just(120), Just(220), Just(320)].prop_map(|pct| Op::Wait { pct }),
         2 => prop_oneof![Just(-40_000i32), Just(-15_000), Just(-5_000), Just(-1_000), Just(2_000), Just(10_000), Just(30_000)].prop_map(|delta_us| Op::WaitUntilExpiry { delta_us }),
         5 => (prop_oneof![Just(-40_000i32), Just(-20_000), Just(-8_000), Just(-3_000), Just(-1_000), Just(-300), Just(300), Just(1_000), Just(5_000), Just(25_000)], 0u8..2, 0u8..2).prop_map(|(delta_us, node, probe)| Op::OpenAtExpiry { delta_us, node, probe }),
         3 => (prop_oneof![Just(110u16), Just(210), Just(320)], 0u8..2, 0u8..2).prop_map(|(pct, node, probe)| Op::HoldFor { pct, node, probe }),
+        3 => (prop_oneof![Just(130u16), Just(250)], 0u8..2, 0u8..2).prop_map(|(pct, node, probe)| Op::HalfClosedFor { pct, node, probe }),
     ];
     (prop_oneof![Just(300u16), Just(450), Just(700)], prop::collection::vec(op, 2..9), any::<u64>()).prop_map(|(timeout_ms, ops, seed)| Case { timeout_ms, ops, seed })
 }
@@ -135,6 +141,7 @@ pub fn run_case(c: &Case) -> CaseResult {
     let mut near_expiry_activity = false;
     let mut idle_closures = 0usize;
     let mut reconnects = 0usize;
+    let mut half_closed = false;
 
     // judge closures that appeared in the log since the last look
     macro_rules! judge_closures {
@@ -211,6 +218,7 @@ pub fn run_case(c: &Case) -> CaseResult {
         match op {
             Op::OpenAtExpiry { delta_us, node, probe } => ops.extend([Op::Drop { probe: 0 }, Op::Drop { probe: 1 }, Op::WaitUntilExpiry { delta_us: *delta_us }, Op::OpenHold { node: *node, probe: *probe }]),
             Op::HoldFor { pct, node, probe } => ops.extend([Op::OpenHold { node: *node, probe: *probe }, Op::Wait { pct: *pct }, Op::Drop { probe: *probe }]),
+            Op::HalfClosedFor { pct, node, probe } => ops.extend([Op::OpenHold { node: *node, probe: *probe }, Op::HalfClose { node: *node, probe: *probe }, Op::Wait { pct: *pct }, Op::Drop { probe: *probe }]),
             other => ops.push(other.clone()),
         }
     }
@@ -312,7 +320,16 @@ pub fn run_case(c: &Case) -> CaseResult {
                     last_activity_done = Some(Instant::now());
                 }
             }
-            Op::OpenAtExpiry { .. } | Op::HoldFor { .. } => unreachable!(),
+            Op::OpenAtExpiry { .. } | Op::HoldFor { .. } | Op::HalfClosedFor { .. } => unreachable!(),
+            Op::HalfClose { node, probe } => {
+                let n = *node as usize % 2;
+                let k = *probe as usize % 2;
+                if held[k] {
+                    let _ = nodes[n].probes[k].send(ProbeCmd::ShutdownHeld);
+                    half_closed = true;
+                    sleep_measured(Duration::from_millis(5), &mut worst_overrun);
+                }
+            }
             Op::Wait { .. } | Op::WaitUntilExpiry { .. } => {
                 // in slices, so that closures are judged with the state they happened in
                 let until = match op {
@@ -393,5 +410,6 @@ pub fn run_case(c: &Case) -> CaseResult {
         .class_if(near_expiry_activity, "activity-within-40ms-of-expiry")
         .class_if(idle_closures >= 2, "ge-2-idle-closures")
         .class_if(reconnects > 0, "reconnected-after-idle-closure")
-        .class_if(req_n > 0, "request-response-activity"))
+        .class_if(req_n > 0, "request-response-activity")
+        .class_if(half_closed, "half-closed-substream-held"))
 }
